@@ -2,6 +2,7 @@ package gen
 
 import (
 	"context"
+	"fmt"
 
 	"github.com/hashicorp/hcl-lang/decoder"
 	"github.com/hashicorp/hcl-lang/schema"
@@ -30,6 +31,17 @@ func decoderContext() decoder.DecoderContext {
 			decoder.ExpressionCompletionCandidate(decoder.ExpressionCandidate{Value: cty.StringVal("hook-one"), Detail: "from hook"}),
 			decoder.ExpressionCompletionCandidate(decoder.ExpressionCandidate{Value: cty.StringVal("hook-two"), Detail: "from hook"}),
 		}, nil
+	}
+	// a hook that has nothing to offer until something was typed (a remote lookup
+	// by prefix), and one that fails
+	ctx.CompletionHooks["SparseHook"] = func(ctx context.Context, value cty.Value) ([]decoder.Candidate, error) {
+		if value.IsNull() || !value.IsKnown() || value.Type() != cty.String || len(value.AsString()) < 2 {
+			return nil, nil
+		}
+		return []decoder.Candidate{decoder.ExpressionCompletionCandidate(decoder.ExpressionCandidate{Value: cty.StringVal(value.AsString() + "-found"), Detail: "from hook"})}, nil
+	}
+	ctx.CompletionHooks["FailingHook"] = func(ctx context.Context, value cty.Value) ([]decoder.Candidate, error) {
+		return nil, fmt.Errorf("lookup failed")
 	}
 	return ctx
 }
